@@ -34,6 +34,18 @@ CHECKS = {
          "Every node of generated schemas carries recording tests and post-transforms; arguments must be the node's own value (pointer into the destination for struct/slice/custom tests and all post-transforms), the context must hold exactly this call's values, post-transforms run in order, once, never while an issue exists; returned errors / ZogIssues and Preprocess failures are exercised in dedicated scenarios.", "DESIGN.md §4 C12"),
  "C14": ("exploration", "runtime monitor: relational oracle on the real code, one generated record rendered through six front ends, destinations and normalised issues compared with the Go-map rendering",
          "Generated records are rendered as Go map, JSON (zjson, zhttp body), form body, query string and environment and parsed with the same schema (also through a top-level Ptr); destinations and issues must agree up to the documented per-source differences.", "DESIGN.md §4 C14"),
+ "C07": ("fault_enumeration", "runtime monitor under a controlled pool (GOMAXPROCS(1), GC off, counting pools): history differential, enumeration of dirty pool states (one field at a time and all), pool-hygiene drain with targeted probes",
+         "A probe call is executed on fresh pools and again after a random history of calls (results optionally handed back through the Collect helpers) or after the exported pools were pre-filled with dirty objects in every library-reachable state; issues, destination and context values seen by callbacks must be identical. Pool hits are measured, so recycling is known to have happened. fault_enumeration: the dirty states are an enumerated fault space, histories are sampled.", "DESIGN.md §4 C07"),
+ "C08": ("exploration", "Go race detector over a stress workload on shared schema objects + per-call comparison with precomputed solo results + context ownership assertions in callbacks, overlap measured by in-flight counters",
+         "16-48 goroutines hammer a pool of shared schema objects under the race detector with injected yields between nodes; any race report with a zog frame, any call whose result differs from its solo result, and any callback that sees another call's context is a violation. The overlap histogram shows the interleavings were real.", "DESIGN.md §4 C08"),
+ "C15": ("exploration", "runtime monitor: exhaustive HTTP dispatch table (method x Content-Type x body x query) with a sentinel per source, expectations computed independently with net/url and encoding/json; decode-failure invariants",
+         "Every cell of the dispatch table is sent through zhttp.Request: the parsed values identify the source that was read, parameter presentation (list / string / absent) is compared with an independent computation, undecodable bodies must give exactly one $root issue without running the schema or touching the destination; {} equals the empty record; also through a top-level Ptr(Struct). exhaustive: true for the table.", "DESIGN.md §4 C15"),
+ "C16": ("exploration", "runtime monitor: random histories of Pick/Omit/Extend/Merge/Test/PostTransform evaluated on real schemas and in a set/list model compiled to hand-built schemas; all schemas re-probed after every step; operand snapshots",
+         "After every step of a random derivation history every schema created so far is compared on random inputs with a schema written out by hand from the model (issues, destination, which struct-level tests and transforms ran, in order); deep snapshots show operands are never modified.", "DESIGN.md §4 C16"),
+ "C17": ("exploration", "runtime monitors: builder-chain fold against the model with per-test pass/fail inputs; marker-coercer locality; shared-object vs independent-copies differential",
+         "Random builder chains are applied to real schemas and folded in the model; each test of the chain is observed passing and failing and its issue (path, code incl. not_ flip, type, message, params) compared; marker coercers must stay on their node; one schema object at several places must behave like independent copies (also across destination types).", "DESIGN.md §4 C17"),
+ "C19": ("exploration", "runtime monitor: deep snapshot hashes (incl. unexported fields, len and cap) of input, schema graph and builder values around every call of a use history; destination scribbling; repeat-equality",
+         "One schema object is used 2-6 times with destination-mutating post-transforms; snapshots around every call show that neither the input nor the schema nor the values handed to builders change, also after the harness overwrites the destination in place; repeated calls give the same result; Validate only changes nodes with Default/Catch/PostTransform.", "DESIGN.md §4 C19"),
 }
 NA_REASON = "check under construction (monitor not yet registered in this commit)"
 checks = []
